@@ -85,6 +85,7 @@ theorem realTextEnd_of_last_digit {s : Str} {c : Char} (h : s.getLast? = some c)
   | nil => rw [hr] at h; simp at h
   | cons d r =>
     rw [hr] at h; simp at h; subst h
+    unfold realEndRev
     split
     · rfl
     · rfl
@@ -120,6 +121,14 @@ theorem fmtInt_end (x : Int) : realTextEnd (fmtInt x) = true := by
     unfold fmtInt
     rw [List.getLast?_append, List.getLast?_eq_some_getLast hne]; rfl
   exact realTextEnd_of_last_digit hl (digit_toDigits (List.getLast_mem hne))
+
+theorem fmtInt_clean (x : Int) : ',' ∉ fmtInt x ∧ '\n' ∉ fmtInt x := by
+  unfold fmtInt
+  constructor <;>
+  · intro h
+    rcases List.mem_append.1 h with h | h
+    · split at h <;> simp at h
+    · exact absurd (digit_toDigits h) (by decide)
 
 /-- the instance: `FmtSpec` holds of the Gaussian integers with decimal printing -/
 def fmtSpec : FmtSpec G Int where
